@@ -201,6 +201,19 @@ Theorem C11_interleaving_irrelevant : forall s l l', Permutation l l' ->
 Proof. exact interleaving_irrelevant. Qed.
 Print Assumptions C11_interleaving_irrelevant.
 
+(* execute does not mutate its arguments: the model is a function of the call VALUE, so handing the very
+   same variables / kwargs to a later call (anywhere in any schedule) yields the very same request.  True by
+   construction of the functional model; its force is the tie, which snapshots the caller's objects
+   (identity + contents) before/after every call and re-uses the same objects across calls of a history. *)
+Theorem C11_reuse_same_arguments : forall s l c r1 r2,
+  In (c, r1) (snd (run_schedule s l)) -> In (c, r2) (snd (run_schedule s l)) -> r1 = r2.
+Proof.
+  intros s l c r1 r2 H1 H2.
+  destruct (interleaving_irrelevant s l l (Permutation_refl l)) as [_ [_ H]].
+  rewrite (H c r1 H1), (H c r2 H2). reflexivity.
+Qed.
+Print Assumptions C11_reuse_same_arguments.
+
 (* ---- concrete behaviour / non-vacuity ---- *)
 Definition ex_vars : list (string * vt) :=
   [("a", VUpload 7);
